@@ -656,6 +656,7 @@ func evaluateHist(o *hxlib.Out, cf *hxlib.CommonFlags, cfg *sessCfg, steps []*hi
 		if failed {
 			return
 		}
+		checkLevels(o, with(base, "call", k), c)
 		need, batches := circuitNeed(c)
 		totalNeed += need
 		o.CountN("and_levels", len(batches))
